@@ -281,10 +281,13 @@ class Bristol_871A(QMI_Instrument):
             self._reader_thread.shutdown()
             self._reader_thread.join()
         super().close()
-        if self._serial_transport is not None:
-            self._serial_transport.close()
-        if self._scpi_transport is not None:
-            self._scpi_transport.close()
+        try:
+            if self._serial_transport is not None:
+                self._serial_transport.close()
+        finally:
+            # Release the SCPI channel also if closing the serial channel failed.
+            if self._scpi_transport is not None:
+                self._scpi_transport.close()
 
     def _write_scpi(self, cmd: str) -> None:
         """Send SCPI command to instrument."""
